@@ -31,6 +31,7 @@ import (
 import (
 	"github.com/bfenetworks/bfe/bfe_basic"
 	"github.com/bfenetworks/bfe/bfe_basic/condition/parser"
+	"github.com/bfenetworks/bfe/bfe_http"
 	"github.com/bfenetworks/bfe/bfe_util"
 	"github.com/bfenetworks/bfe/bfe_util/net_util"
 	"github.com/spaolacci/murmur3"
@@ -239,7 +240,12 @@ func (q *QueryValueFetcher) Fetch(req *bfe_basic.Request) (interface{}, error) {
 		return nil, fmt.Errorf("fetcher: nil pointer")
 	}
 
-	return req.CachedQuery().Get(q.key), nil
+	values, ok := req.CachedQuery()[q.key]
+	if !ok || len(values) == 0 {
+		return nil, fmt.Errorf("fetcher: query key not found")
+	}
+
+	return values[0], nil
 }
 
 type QueryExistMatcher struct{}
@@ -313,7 +319,12 @@ func (r *HeaderValueFetcher) Fetch(req *bfe_basic.Request) (interface{}, error) 
 		return nil, fmt.Errorf("fetcher: nil pointer")
 	}
 
-	return req.HttpRequest.Header.Get(r.key), nil
+	values, ok := req.HttpRequest.Header[bfe_http.CanonicalHeaderKey(r.key)]
+	if !ok || len(values) == 0 {
+		return nil, fmt.Errorf("fetcher: header not found")
+	}
+
+	return values[0], nil
 }
 
 type BypassMatcher struct{}
@@ -621,7 +632,12 @@ func (r *ResHeaderValueFetcher) Fetch(req *bfe_basic.Request) (interface{}, erro
 		return nil, fmt.Errorf("fetcher: nil pointer")
 	}
 
-	return req.HttpResponse.Header.Get(r.key), nil
+	values, ok := req.HttpResponse.Header[bfe_http.CanonicalHeaderKey(r.key)]
+	if !ok || len(values) == 0 {
+		return nil, fmt.Errorf("fetcher: header not found")
+	}
+
+	return values[0], nil
 }
 
 type ResCodeFetcher struct{}
